@@ -237,11 +237,25 @@ def oracle_paxos(c, obs):
             cur[i] = st["dec_v"]
         for kk, rs in st["p1"]:
             if len({r[0] for r in rs}) != len(rs):
-                out.append(dict(clause="phase-1 responses of a ballot come from distinct senders (hypothesis of c12_paxos_chosen_unique_partial)",
+                out.append(dict(clause="phase-1 responses of a ballot come from distinct senders (c12_paxos_distinct_responders)",
                                 node=i, step=k, ballot=kk, senders=[r[0] for r in rs]))
         for fid, v in st["resolved"]:
             if not st["decided"] or v != st["dec_v"]:
                 out.append(dict(clause="a proposer's future resolves with the decided value", node=i, step=k, fid=fid, value=v))
+    # implementation-side check of c12_paxos_decided_is_chosen: a value reported as decided is a CHOSEN value
+    # (some ballot under which a majority of nodes accepted exactly that value)
+    votes, announced = set(), set()
+    maj = c["n"] // 2 + 1
+    for k, s in enumerate(obs["trace"]):
+        st = s["st"]
+        if st["acc_b"] is not None:
+            votes.add((s["node"], tuple(st["acc_b"]), st["acc_v"]))
+        for o in s["outs"]:
+            if o[0] == "Decided" and repr(o[2]) not in announced:
+                announced.add(repr(o[2]))
+                ballots = {b for (_, b, v) in votes if v == o[2]}
+                if not any(len({a for (a, b2, v) in votes if b2 == b and v == o[2]}) >= maj for b in ballots):
+                    out.append(dict(clause="a decided value was accepted by a majority under one ballot (chosen)", node=s["node"], step=k, value=o[2]))
     vals = {repr(v) for v in cur.values()}
     if len(vals) > 1:
         out.append(dict(clause="any two nodes that report a decided value report the same value", mechanism="disagreement",
@@ -262,7 +276,52 @@ def oracle_paxos(c, obs):
     return res
 
 
+def gen_paxos_ladder(rng):
+    """Several proposers with distinct values on a very lossy network: ballots complete only
+    partially, so that a later proposer's quorum of promises reports DIFFERENT accepted ballots
+    with different values (the case in which the highest-accepted-ballot rule matters)."""
+    n = rng.choice([4, 5, 5])
+    k = rng.randint(3, 4)
+    nodes = rng.sample(range(n), min(k, n))
+    t = 1
+    props = []
+    for j, nd in enumerate(nodes):
+        props.append([t, nd, j + 1])
+        t += rng.choice([3, 10, 25, 60])
+    loss = rng.choice([0.25, 0.35, 0.45])
+    pal = rng.choice([[1, 2, 3], [1, 2, 5, 9], [1, 4, 12, 30]])
+    delays = [(-1 if rng.random() < loss else rng.choice(pal)) for _ in range(rng.randint(30, 80))]
+    return dict(n=n, retry_ms=rng.choice([5, 20, 50]), seed=rng.randrange(1000), proposals=props, delays=delays, parts=[],
+                end_ms=3000, fault_free=False, mode="ladder")
+
+
+def gen_paxos_classic(rng):
+    """The textbook schedule: value x accepted by one node under ballot b1, value y accepted under a
+    higher ballot b2 (sometimes chosen), then a third ballot whose quorum of promises reports both."""
+    a, c3 = rng.choice([(0, 1), (0, 2), (1, 2)])
+    vals = rng.sample([1, 2, 3], 3)
+    j = lambda: rng.choice([1, 1, 2, 3])
+    lost = -1
+    # send order: P a->*, P a->*, Promise, A, A | P c->*, P c->*, Promise, A, A, Accepted, D, D | ...
+    delays = [j(), j(), j(), lost, lost, j(), j(), j(), rng.choice([lost, j()]), j(), j(), rng.choice([lost, j()]), j()]
+    # which Prepare is lost depends on the roles: lose the first proposer's Prepare to the second proposer and back
+    order_a = [x for x in range(3) if x != a]
+    order_c = [x for x in range(3) if x != c3]
+    delays[order_a.index(c3)] = lost
+    delays[5 + order_c.index(a)] = lost
+    delays += [j() for _ in range(50)]
+    t2 = rng.choice([15, 20, 40])
+    return dict(n=3, retry_ms=rng.choice([50, 500]), seed=rng.randrange(1000),
+                proposals=[[1, a, vals[0]], [t2, c3, vals[1]], [2 * t2, rng.choice([a, a, 3 - a - c3]), vals[2]]],
+                delays=delays, parts=[], end_ms=3000, fault_free=False, mode="classic")
+
+
 def gen_paxos(rng):
+    r = rng.random()
+    if r < 0.15:
+        return gen_paxos_classic(rng)
+    if r < 0.4:
+        return gen_paxos_ladder(rng)
     n = rng.choice([3, 3, 3, 4, 5])
     mode = rng.choice(["single", "duel", "duel", "melee", "melee", "lossy"])
     fault_free = mode == "single"
@@ -1086,7 +1145,7 @@ FAMILIES = [
            describe=lambda c: f"election {['bully', 'ring', 'randomized'][c['strat']]} n={len(c['members'])}"),
 ]
 
-COQ_FILES = ["C12/Model.v", "C12/PaxosNode.v", "C12/PaxosSys.v", "C12/PaxosAgree.v", "C12/LockModel.v", "C12/Lock.v", "C12/MultiModel.v", "C12/Multi.v", "C12/ElectionModel.v", "C12/Election.v", "C12/Props.v"]
+COQ_FILES = ["C12/Model.v", "C12/PaxosNode.v", "C12/PaxosSys.v", "C12/PaxosAgree.v", "C12/PaxosFull.v", "C12/PaxosDecide.v", "C12/LockModel.v", "C12/Lock.v", "C12/MultiModel.v", "C12/Multi.v", "C12/ElectionModel.v", "C12/Election.v", "C12/Props.v"]
 
 TRUSTED = [
     "Coq 8.16.1 kernel (coqc, vm_compute for case evaluation); no native_compute; no axioms",
@@ -1131,8 +1190,8 @@ def run_jobs(ctx, jobs, chunk, workers=6):
 def run(ctx):
     ctx.prove(COQ_FILES, allowed_axioms=(), trusted_base=TRUSTED)
     fams = {f.name: f for f in FAMILIES}
-    stats = run_jobs(ctx, [(fams["paxos"], ctx.n(240, 6000)), (fams["lock"], ctx.n(80, 1500)),
-                           (fams["multi"], ctx.n(120, 3000)), (fams["election"], ctx.n(40, 1000))], ctx.n(40, 250))
+    stats = run_jobs(ctx, [(fams["paxos"], ctx.n(200, 4000)), (fams["lock"], ctx.n(60, 1000)),
+                           (fams["multi"], ctx.n(100, 2000)), (fams["election"], ctx.n(30, 500))], ctx.n(34, 250), workers=8)
     merge_stats(ctx, stats, "random schedules (per-message delays, loss, partitions, retry jitter) over 3-5 nodes and 1-4 proposals; "
                 "non-trivial = competing ballots (a nack/retry occurred or more than one proposal); distinct by JSON of the input")
     ctx.finish_obligations()
